@@ -30,7 +30,7 @@ Fields ==
                len_DHT |-> 2, len_SOS |-> 2, icc_seq |-> 1, icc_total |-> 1, sof_ncomp |-> 1 ],
     webp |-> [ riff_size |-> 4, len_VP8X |-> 4, len_ICCP |-> 4, len_VP8 |-> 4, len_VP8L |-> 4 ],
     icc  |-> [ profile_size |-> 4, tag_count |-> 4, tag_off_desc |-> 4, tag_size_desc |-> 4,
-               tag_off_other |-> 4, tag_size_other |-> 4, desc_count |-> 4,
+               tag_off_other |-> 4, tag_size_other |-> 4, desc_count |-> 4, desc_ucount |-> 4,
                mluc_count |-> 4, mluc_recsize |-> 4, mluc_len |-> 4, mluc_off |-> 4 ] ]
 
 \* symbolic boundary values; v = the field's value in the seed, W = 2^(8*width)
